@@ -24,11 +24,14 @@ TMalloc ==
        /\ Ev.data = "rw-p" /\ Ev.guard_lo = "---p" /\ Ev.guard_lo_size = PageSize
        /\ Ev.hdr = "r--p" /\ Ev.guard_hi = "---p" /\ Ev.guard_hi_min >= PageSize
 
-\* oversized request: must fail with ENOMEM when size >= SIZE_MAX - 4 pages (anything else that large cannot succeed either)
+\* oversized request: every size whose mapping length 3 pages + PageRound(size + canary) does not fit a size_t
+\* (sys/LayoutAll.tla, NoWrapTotal: size + 16 > 2^64 - 4 pages, i.e. size >= SIZE_MAX - 4 pages - 14) must fail with ENOMEM;
+\* this is the arithmetic fact, not the library's margin (5 pages since the repair of F6, 4 before: the 14 sizes just
+\* below SIZE_MAX - 4 pages then wrapped the length to 0 and failed with EINVAL).  Anything that large cannot succeed either.
 TBigMalloc ==
   /\ IsEvent("bigmalloc") /\ UNCHANGED vars
   /\ LET s == BNFromBytes(Ev.size) IN
-       (BNCmp(s, BNSub(SizeMax, Small(4 * Ev.page))) >= 0) => (Ev.null /\ Ev.enomem)
+       (BNCmp(s, BNSub(SizeMax, Small((4 * Ev.page) + 14))) >= 0) => (Ev.null /\ Ev.enomem)
   /\ Ev.null
 
 TAllocArray ==
